@@ -574,22 +574,24 @@ impl From<std::convert::Infallible> for PyErr {
 // ---------------------------------------------------------------------------------------
 
 pub mod pybacked {
-    /// `str` argument handed over by Python; owns its text.
-    pub struct PyBackedStr(pub String);
+    /// `str` argument handed over by Python.  Holds a `&'static str` (harness texts are literals): an owned String
+    /// would be freed inside the repository's from_python(), and CBMC then reports spurious dereference failures
+    /// on the NEXT heap allocation (the buffer pool's Vec) - measured, see DESIGN.md.
+    pub struct PyBackedStr(pub &'static str);
     impl PyBackedStr {
-        pub fn new(s: &str) -> Self {
-            PyBackedStr(s.to_string())
+        pub fn new(s: &'static str) -> Self {
+            PyBackedStr(s)
         }
     }
     impl AsRef<str> for PyBackedStr {
         fn as_ref(&self) -> &str {
-            &self.0
+            self.0
         }
     }
     impl std::ops::Deref for PyBackedStr {
         type Target = str;
         fn deref(&self) -> &str {
-            &self.0
+            self.0
         }
     }
 }
